@@ -6,7 +6,11 @@ Correspondence (implementation vs extracted Coq model) and search for failing in
     xlsx::get_row_and_optional_column / get_row_column / get_dimension (cmd `col26`);
   * the two token decoders xls::parse_formula / xlsb::parse_formula (cmd `ptg`): random ASTs
     encoded by the extracted Coq encoders (cmd `ptg_ast`, model side only), raw and mutated rgce
-    byte strings (the model must predict err / panic / text exactly).
+    byte strings (the model must predict err / panic / text exactly);
+  * the decoders' environment and the end-to-end statement (round 3): generated .xlsb / .xls /
+    .xlsx / .ods files (tools/fmlagen.py) through Reader::worksheet_formula of every sheet and
+    Reader::defined_names; expected = the generator's semantic description expanded independently
+    (+ the Coq `render` text for token formulas), model = extracted FormulaEnv (cmds `fenv`, `fpos`).
 All randomness comes from ctx.rng."""
 import os, struct, sys
 import vlib
@@ -20,6 +24,9 @@ ASSUMPTIONS = [
     "the decoders are reached through the verif hooks with code page 1200 (what BIFF8 files declare); other code pages are outside the model",
     "FTAB / FTAB_ARGC are compared with a frozen reference copy (regression pin, not a conformance claim against MS-XLS 2.5.198.17)",
     "external-workbook references (iSupBook not the internal SupBook) and multi-sheet 3-D spans (itabFirst <> itabLast) are outside the property's grammar; calamine ignores iSupBook/itabLast",
+    "defined names: every Lbl / BrtName / definedName / named-range record of the file is a defined name (the code filters nothing; hidden and built-in names keep their slot); an xls built-in name is its one-character code, as stored",
+    "stored-text formats: the text of <f> (character data, entities and CDATA resolved) / of the table:formula attribute (entities resolved, of:= / = prefix kept) is the formula text; a repeated ods cell or row repeats its formula verbatim; cells whose text is empty are not formula cells",
+    "FormulaEnv models the name / extern-sheet loops from the framed records on (framing: C02 / C03); the XML event level of xlsx / ods has no Coq model (the file tier compares the real readers with the generator's expansion and with the extracted Range::from_sparse)",
 ]
 
 U32 = 2**32 - 1
@@ -637,6 +644,677 @@ def run_files(ctx, n, ftab_argc):
 
 
 
+# ------------------------------------------------------------------------------- end to end, all four formats
+# Real files through Reader::worksheet_formula (every sheet) and Reader::defined_names.  Expected
+# values: tools/fmlagen.expected_range / expected_names over the generator's own semantic
+# description, with the Coq `render` text for token formulas (cmd ptg_ast).  Model: the extracted
+# FormulaEnv functions (cmd fenv: name / extern-sheet tables from the raw records; cmd fpos:
+# Range::from_sparse over the formula cells).
+import fmlagen as fg
+
+KNOWN_PTGEXP = "K_PTGEXP"
+KNOWN_XLS_NAME = "K_XLS_NAME_FORMULA"
+KNOWN_XLSX_CDATA = "K_XLSX_NAME_CDATA"
+E2E_DIR = os.path.join(vlib.CACHE, "tmp", "c14")
+
+
+def _write(name, data):
+    os.makedirs(E2E_DIR, exist_ok=True)
+    path = os.path.join(E2E_DIR, name)
+    with open(path, "wb") as f:
+        f.write(data)
+    return path
+
+
+def _window(rng, maxr, maxc, h=24, w=8):
+    """base of a small window of cells: origin, small offsets, random, and the far corner"""
+    br = rng.choice([0, 0, 3, maxr - h, maxr - h, rng.randrange(0, maxr - h)])
+    bc = rng.choice([0, 0, 2, maxc - w, maxc - w, rng.randrange(0, maxc - w)])
+    return br, bc
+
+
+def _check_book(ctx, fmt, line, answer, exp_names, exp_sheets, known_sheets=None, model_names=None, known_names=None):
+    """answer: the harness' reply to `open fmt path names;formula s1;…`.
+    exp_names: what the property demands of defined_names; model_names: what the Coq model predicts
+    (None = same); exp_sheets: per sheet (demanded by the property, predicted by the model).  Model and
+    property differ only inside a known class (known_names / known_sheets = its id)."""
+    parts = (answer or "").split(";;")
+    want = [exp_names] + [e[0] for e in exp_sheets]
+    pred = [model_names if model_names is not None else exp_names] + [e[1] for e in exp_sheets]
+    ctx.traces += 1
+    if len(parts) != len(want):
+        ctx.violations.append({"case": line, "expected": ";;".join(want), "actual": answer, "model": ";;".join(pred),
+                               "what": "%s file through the public API: the workbook could not be read (%s)" % (fmt, answer)})
+        return False
+    ok = True
+    for i, (got, w, p_) in enumerate(zip(parts, want, pred)):
+        if got != p_:
+            ctx.disagreements.append({"function": "%s %s (real file vs FormulaEnv model)" % (fmt, "defined_names" if i == 0 else "worksheet_formula"),
+                                      "case": line, "impl": got, "model": p_})
+        if got == w:
+            if w and w != "R[-]":
+                ctx.nontrivial("%s:file:%s" % (fmt, w))
+            continue
+        kn = known_names if i == 0 else known_sheets
+        if kn and got == p_:
+            ctx.known_hits.setdefault(kn, {"case": line, "expected": w, "actual": got})
+            ctx.count("%s:file:known:%s" % (fmt, kn))
+            continue
+        ok = False
+        if i == 0:
+            what = "defined_names must list every name record in file order, each with the text of its formula"
+        else:
+            what = ("worksheet_formula of sheet #%d: every formula text at its absolute position, \"\" elsewhere, "
+                    "tight bounding box of the formula cells" % (i - 1))
+        ctx.violations.append({"case": line, "expected": ";;".join(want), "actual": answer, "model": ";;".join(pred),
+                               "what": "%s file through the public API: %s" % (fmt, what)})
+        break
+    return ok
+
+
+def _fpos_line(lid, cells, keep=False):
+    return "%s\tfpos\t%s\t%s" % (lid, "keep" if keep else "drop",
+                                 ",".join("%d:%d:%s" % (r, c, hx(t)) for (r, c, t) in cells) or "-")
+
+
+def _model_ranges(ctx, meta, fmt):
+    """stored-text formats: the extracted FormulaEnv.formula_range over the formula cells must agree
+    with the generator's own expansion (and, through _check_book, with the real reader)"""
+    lines = []
+    for lid, m in meta.items():
+        for si, fc in enumerate(m[3]):
+            lines.append(_fpos_line("%s_p%d" % (lid, si), fc))
+    mod = ctx.run_model(lines)
+    for lid, m in meta.items():
+        for si, e in enumerate(m[2]):
+            got = mod.get("%s_p%d" % (lid, si))
+            if got != e[1]:
+                ctx.disagreements.append({"function": "formula_range (FormulaEnv model vs expansion of the generator, %s)" % fmt,
+                                          "case": m[0], "impl": e[1], "model": got})
+
+
+def _recs_arg(recs):
+    return ",".join("%d:%s" % (t, p.hex()) for t, p in recs) or "-"
+
+
+def _pick_ast(model, lids, fallback_hex, fallback_text):
+    """first in-domain candidate (wf, no known class, reasonable size): (rgce hex incl. framing, text)"""
+    for lid in lids:
+        parts = model.get(lid, "").split("|")
+        if len(parts) == 5 and parts[4] == "1" and parts[3] == "-" and len(parts[0]) // 2 <= 4000 and parts[1] == "ok:" + parts[2]:
+            return parts[0], bytes.fromhex(parts[2]).decode("utf-8")
+    return fallback_hex, fallback_text
+
+
+NAME_POOL = ["Rate", "Bonus", "Total", "_xlnm._FilterDatabase", "_xlnm.Print_Area", "x", "Prix_€", "名前",
+             "_n1", "tax.rate", "\\a", "Länge", "solver_adj", "A_very_long_defined_name_0123456789"]
+SHEET_POOL = ["Sheet1", "Sheet2", "Data", "My Sheet", "Übersicht", "数据", "S", "a'b", "Sheet 10", "Δ", "A&B", "x<y"]
+
+
+def _name_biased_expr(g, rng, after=0):
+    """a formula that certainly uses a defined name (preferably one stored after index `after`)"""
+    n = len(g.names)
+    lo = after + 1 if after < n and rng.random() < 0.8 else 1
+    idx = rng.randrange(lo, n + 1)
+    return "bin %d %s name %s %d" % (rng.choice([3, 5, 8]), g.expr(rng.choice([0, 1])), rng.choice("rv"), idx)
+
+
+def run_xlsb_files(ctx, n, argc):
+    rng = ctx.rng
+    g = Gen(ctx, "xlsb", argc)
+    books, ast_lines = [], []
+    for k in range(n):
+        ns = rng.randrange(1, 5)
+        bundle = rng.sample(SHEET_POOL, ns)
+        # extern-sheet table: deliberately not the identity on sheet indices
+        xtis = []
+        for _ in range(rng.randrange(1, 6)):
+            p = rng.random()
+            f = rng.randrange(0, ns) if p < 0.75 else rng.choice([-1, -2]) if p < 0.9 else rng.choice([ns, ns + 3, 70000])
+            xtis.append((0, f, f if rng.random() < 0.8 else min(ns - 1, max(f, 0))))
+        if ns > 1 and rng.random() < 0.6:
+            xtis.sort(key=lambda x: -x[1])
+        ext = [fg.xlsb_resolve_xti(x[1], bundle) for x in xtis]
+        g.sheets, g.xtis, g.nixti = ext, None, len(ext)
+        # names: every flag combination, hidden / built-in ones first more often than not
+        nn = rng.choice([0, 1, 2, 3, 4, 6])
+        nm = []
+        for i in range(nn):
+            fl = 0
+            for bit, pr in ((fg.NF_HIDDEN, 0.35), (fg.NF_FUNC, 0.1), (fg.NF_OB, 0.05), (fg.NF_PROC, 0.1), (fg.NF_CALCEXP, 0.1),
+                            (fg.NF_BUILTIN, 0.2), (fg.NF_PUBLISHED, 0.1), (fg.NF_WBPARAM, 0.05), (fg.NF_FUTURE, 0.03)):
+                if rng.random() < pr:
+                    fl |= bit
+            if i == 0 and nn > 1 and rng.random() < 0.6:
+                fl |= fg.NF_HIDDEN
+            name = rng.choice(NAME_POOL) if rng.random() < 0.9 else rng.choice(["", "dup", "dup"])
+            if fl & fg.NF_BUILTIN and rng.random() < 0.7:
+                name = rng.choice(["_xlnm._FilterDatabase", "_xlnm.Print_Area", "_xlnm.Print_Titles", "_xlnm.Criteria"])
+            ctx.count("xlsb:file:name_flags:%s" % ("+".join(t for b, t in ((1, "hidden"), (2, "func"), (8, "proc"), (32, "builtin")) if fl & b) or "plain"))
+            g.names = [x["name"] for x in nm]
+            cands = []
+            mode = rng.random()
+            for j in range(3):
+                lid = "xbn%d_%d_%d" % (k, i, j)
+                if mode < 0.15:
+                    ast = None
+                elif mode < 0.45 and g.names:
+                    ast = _name_biased_expr(g, rng)          # a name defined through an earlier name
+                elif mode < 0.75:
+                    ast = "area3 r %d %s %s" % (rng.randrange(0, len(ext)), g.cref(), g.cref())
+                else:
+                    ast = g.expr(rng.choice([0, 1, 2]))
+                if ast is not None:
+                    ast_lines.append("%s\tptg_ast\txlsb\t%s\t%s" % (lid, "\t".join(g.env_args()), ast))
+                    cands.append(lid)
+            nm.append({"flags": fl, "name": name, "itab": rng.choice([0xFFFFFFFF, 0xFFFFFFFF, 0, ns - 1]), "cands": cands,
+                       "comment": rng.choice([None, None, "c", ""]), "chkey": rng.choice([0, 0, 65])})
+        g.names = [x["name"] for x in nm]
+        hidden = [i for i, x in enumerate(nm) if x["flags"] & fg.NF_HIDDEN]
+        after = hidden[0] + 1 if hidden else 0
+        ea = g.env_args()
+        sheets = []
+        for si in range(ns):
+            br, bc = _window(rng, 1048576, 16384)
+            poss = sorted(set((br + rng.randrange(0, 24), bc + rng.randrange(0, 8)) for _ in range(rng.choice([0, 1, 2, 3, 5, 8]))))
+            slots = []
+            for (r, c) in poss:
+                p = rng.random()
+                kind = rng.choice(["fnum", "fnum", "fstr", "fstr", "fbool", "ferr"])
+                if p < 0.12:
+                    slots.append((r, c, rng.choice(["num", "str", "bool", "err", "blank"]), None))   # value cell
+                elif p < 0.17:
+                    slots.append((r, c, kind, "empty"))
+                elif p < 0.21:
+                    slots.append((r, c, kind, "ptgexp"))
+                else:
+                    cands = []
+                    for j in range(2):
+                        lid = "xbc%d_%d_%d_%d" % (k, si, len(slots), j)
+                        q = rng.random()
+                        if q < 0.35 and g.names:
+                            ast = _name_biased_expr(g, rng, after)
+                        elif q < 0.55:
+                            ast = "ref3 %s %d %s" % (rng.choice("rv"), rng.randrange(0, len(ext)), g.cref())
+                        else:
+                            ast = g.expr(rng.choice([0, 1, 2, 3]))
+                        ast_lines.append("%s\tptg_ast\txlsb\t%s\t%s" % (lid, "\t".join(ea), ast))
+                        cands.append(lid)
+                    slots.append((r, c, kind, cands))
+            # value cells outside the formula area: the formula range must not follow the value range
+            if poss and rng.random() < 0.5:
+                r0, c0 = poss[0][0], min(p[1] for p in poss)
+                if r0 > 0:
+                    slots.insert(0, (r0 - 1, max(0, c0 - 1), "num", None))
+                slots.append((poss[-1][0] + 1, min(16383, max(p[1] for p in poss) + 2), "str", None))
+            sheets.append(slots)
+        books.append((bundle, xtis, ext, nm, sheets))
+    model = ctx.run_model(ast_lines)
+    impl_lines, meta, model_lines, bad_lines = [], {}, [], []
+    for k, (bundle, xtis, ext, nm, sheets) in enumerate(books):
+        payloads, exp_names = [], []
+        for x in nm:
+            hexb, text = _pick_ast(model, x["cands"], "1e0700", "7") if x["cands"] else ("", "")
+            payloads.append(fg.brt_name_payload(x["flags"], x["itab"], x["name"], bytes.fromhex(hexb), x["chkey"], x["comment"]))
+            exp_names.append((x["name"], text))
+        sheet_cells, exp_sheets, has_exp, mlines = [], [], False, []
+        for si, slots in enumerate(sheets):
+            recs, cells_prop, cells_model, cells_all = [], [], [], []
+            for (r, c, kind, what) in slots:
+                if what is None:
+                    recs.append((r, c, kind, b""))
+                elif what == "empty":
+                    recs.append((r, c, kind, b""))
+                    cells_all.append((r, c, ""))
+                elif what == "ptgexp":
+                    # member of a shared formula whose text is "7" (BrtShrFmla written by fmlagen)
+                    recs.append((r, c, kind, b"\x01" + struct.pack("<I", r)))
+                    cells_prop.append((r, c, "7"))
+                    cells_all.append((r, c, ""))
+                    has_exp = True
+                else:
+                    hexb, text = _pick_ast(model, what, "1e0700", "7")
+                    recs.append((r, c, kind, bytes.fromhex(hexb)))
+                    cells_prop.append((r, c, text))
+                    cells_model.append((r, c, text))
+                    cells_all.append((r, c, text))
+            sheet_cells.append(recs)
+            exp_sheets.append([fg.expected_range(cells_prop), fg.expected_range(cells_model)])
+            mlines.append(_fpos_line("xb%d_p%d" % (k, si), cells_all))
+            ctx.count("xlsb:file:formulas_per_sheet:%d" % len(cells_model))
+        tail = fg.xlsb_tail_records(xtis, payloads)
+        path = _write("e%d.xlsb" % k, fg.xlsb_bytes(bundle, sheet_cells, tail, rng))
+        calls = "names;" + ";".join("formula " + hx(s) for s in bundle)
+        line = "xb%d\topen\txlsb\t%s\t%s" % (k, path, calls)
+        impl_lines.append(line)
+        model_lines += mlines
+        model_lines.append("xb%d_e\tfenv\txlsb\t%s\t-\t%s" % (k, names_arg(bundle), _recs_arg(tail)))
+        meta["xb%d" % k] = (line, fg.expected_names(exp_names), exp_sheets, KNOWN_PTGEXP if has_exp else None, ext)
+        # a malformed sibling (implementation vs model only): a truncated BrtName, or an extern-sheet
+        # count that runs into the bytes an earlier record left in the reader's buffer
+        if nm and rng.random() < 0.25:
+            bad = list(payloads)
+            j = rng.randrange(len(bad))
+            q = rng.random()
+            if q < 0.6:
+                bad[j] = bad[j][: rng.randrange(0, len(bad[j]))]
+            elif q < 0.8:      # a character count far beyond the record (wide_str must answer Err)
+                bad[j] = bad[j][:9] + struct.pack("<I", rng.choice([0x7FFFFFFF, 0xFFFFFFFF, 100000])) + bad[j][13:]
+            else:              # an rgce length far beyond the record (slice out of range)
+                nlen = struct.unpack("<I", bad[j][9:13])[0]
+                o = 13 + 2 * nlen
+                bad[j] = bad[j][:o] + struct.pack("<I", rng.choice([0xFFFFFFF0, 0x7FFFFFFF, 70000])) + bad[j][o + 4:]
+            btail = fg.xlsb_tail_records(xtis, bad)
+        elif rng.random() < 0.15:
+            btail = fg.xlsb_tail_records(xtis, payloads[:2], junk=bytes(rng.randrange(256) for _ in range(rng.choice([3, 16, 60, 200]))),
+                                         cxti=len(xtis) + rng.choice([1, 2, 5]))
+        else:
+            btail = None
+        if btail is not None:
+            bpath = _write("e%d_bad.xlsb" % k, fg.xlsb_bytes(bundle, [[] for _ in bundle], btail, rng))
+            bad_lines.append(("xbm%d" % k, "xbm%d\topen\txlsb\t%s\tnames" % (k, bpath),
+                              "xbm%d\tfenv\txlsb\t%s\t-\t%s" % (k, names_arg(bundle), _recs_arg(btail))))
+    impl = ctx.run_impl(impl_lines + [b[1] for b in bad_lines])
+    mod2 = ctx.run_model(model_lines + [b[2] for b in bad_lines])
+    for lid, (line, en, es, known, ext) in meta.items():
+        env = mod2.get(lid + "_e", "")
+        mnames = None
+        if env.startswith("ok:") and "|" in env:
+            mnames, mext = env[3:].split("|", 1)
+            if mext != ",".join(hx(x) for x in ext):
+                ctx.disagreements.append({"function": "xlsb extern-sheet table (FormulaEnv model vs independent reading of the XTI array)",
+                                          "case": line, "impl": ",".join(hx(x) for x in ext), "model": mext})
+        else:
+            mnames = env or "(missing)"
+        for si, e in enumerate(es):
+            m = mod2.get("%s_p%d" % (lid, si))
+            if m != e[1]:
+                ctx.disagreements.append({"function": "formula_range (FormulaEnv model vs expansion of the generator)", "case": line,
+                                          "impl": e[1], "model": m})
+        _check_book(ctx, "xlsb", line, impl.get(lid), en, [tuple(e) for e in es], known, model_names=mnames)
+    for lid, il, ml in bad_lines:
+        i, m = impl.get(lid), mod2.get(lid, "")
+        ctx.traces += 1
+        ctx.count("xlsb:file:malformed_names:%s" % (i if i in ("panic", "openerr:other") else "ok"))
+        same = (m == "panic" and i == "panic") or (m == "err" and i == "openerr:other") or \
+               (m.startswith("ok:") and i == m[3:].split("|", 1)[0])
+        if not same:
+            ctx.disagreements.append({"function": "xlsb read_workbook names loop (malformed records)", "case": il, "impl": i, "model": m})
+    ctx.extra["generated_xlsb_files"] = len(books) + len(bad_lines)
+    return meta, impl
+
+
+def run_xls_files2(ctx, n, argc):
+    """.xls: Lbl records of every kind (hidden, built-in, 8/16-bit names) in front of the names the
+    formulas use, 3-D references through a shuffled XTI table (possibly split over two EXTERNSHEET
+    records), shared-formula members (PtgExp: known class), defined_names."""
+    from props import c14_xlsfile as xf
+    rng = ctx.rng
+    g = Gen(ctx, "xls", argc)
+    books, ast_lines = [], []
+    for k in range(n):
+        g.env()
+        ns = len(g.sheets)
+        if ns > 1 and rng.random() < 0.5:
+            g.xtis = [(0, f, f) for f in rng.sample(range(ns), ns)][::-1] + g.xtis[:2]
+            g.nixti = len(g.xtis)
+        nn = rng.choice([0, 1, 2, 3, 4, 6])
+        nm = []
+        for i in range(nn):
+            fl = 0
+            for bit, pr in ((fg.LF_HIDDEN, 0.35), (fg.LF_FUNC, 0.1), (fg.LF_OB, 0.05), (fg.LF_PROC, 0.1), (fg.LF_CALCEXP, 0.1),
+                            (fg.LF_PUBLISHED, 0.1), (fg.LF_WBPARAM, 0.05)):
+                if rng.random() < pr:
+                    fl |= bit
+            if i == 0 and nn > 1 and rng.random() < 0.6:
+                fl |= fg.LF_HIDDEN
+            if rng.random() < 0.25:
+                fl |= fg.LF_BUILTIN
+                name, wide16 = chr(rng.choice([0x00, 0x01, 0x06, 0x07, 0x0D])), rng.random() < 0.15
+            else:
+                name = rng.choice(NAME_POOL)
+                wide16 = any(ord(ch) > 255 for ch in name) or rng.random() < 0.3
+            ctx.count("xls:file:name:%s%s%s" % ("builtin" if fl & 32 else "plain", "+hidden" if fl & 1 else "", "+16bit" if wide16 else ""))
+            # the Lbl formula: in-domain = one absolute 3-D reference token
+            mode = rng.random()
+            ixti = rng.randrange(0, max(1, g.nixti + (1 if rng.random() < 0.1 else 0)))
+            lid = "xln%d_%d" % (k, i)
+            kn = False
+            if mode < 0.45:
+                ast = "ref3 r %d %d %d 0 0" % (ixti, rng.choice([0, 9, 65535, rng.randrange(65536)]), rng.choice([0, 25, 26, 255, rng.randrange(256)]))
+            elif mode < 0.8:
+                ast = "area3 r %d %d %d 0 0 %d %d 0 0" % (ixti, rng.randrange(100), rng.randrange(30), rng.randrange(100, 65536), rng.randrange(30, 256))
+            elif mode < 0.9:
+                # relative components: inside the known class until commit 2c35987, in-domain since
+                ast = "ref3 r %d %d %d %d %d" % (ixti, rng.randrange(100), rng.randrange(100), rng.randrange(2), 1)
+            else:
+                ast, kn = rng.choice(["int 7", "bin 3 ref3 r %d 1 1 0 0 int 1" % ixti, "str 0 97.98", "bool 1"]), True
+            ast_lines.append("%s\tptg_ast\txls\t%s\t%s" % (lid, "\t".join(g.env_args()), ast))
+            nm.append({"flags": fl, "name": name, "wide": wide16, "lid": lid, "known": kn, "itab": rng.choice([0, 0, 1])})
+        g.names = [x["name"] for x in nm]
+        hidden = [i for i, x in enumerate(nm) if x["flags"] & (fg.LF_HIDDEN | fg.LF_BUILTIN)]
+        after = hidden[0] + 1 if hidden else 0
+        ea = g.env_args()
+        sheets = []
+        for si in range(ns):
+            br, bc = _window(rng, 65536, 256, 40, 12)
+            poss = sorted(set((br + rng.randrange(0, 40), bc + rng.randrange(0, 12)) for _ in range(rng.choice([0, 1, 2, 3, 6]))))
+            slots = []
+            for (r, c) in poss:
+                if rng.random() < 0.06:
+                    slots.append((r, c, "ptgexp"))
+                    continue
+                cands = []
+                for j in range(2):
+                    lid = "xlc%d_%d_%d_%d" % (k, si, len(slots), j)
+                    q = rng.random()
+                    if q < 0.35 and g.names:
+                        ast = _name_biased_expr(g, rng, after)
+                    elif q < 0.55 and g.nixti:
+                        ast = "ref3 %s %d %s" % (rng.choice("rv"), rng.randrange(0, g.nixti), g.cref())
+                    else:
+                        ast = g.expr(rng.choice([0, 1, 2, 3]))
+                    ast_lines.append("%s\tptg_ast\txls\t%s\t%s" % (lid, "\t".join(ea), ast))
+                    cands.append(lid)
+                slots.append((r, c, cands))
+            sheets.append(slots)
+        books.append((list(g.sheets), list(g.xtis), nm, sheets, rng.random() < 0.3))
+    model = ctx.run_model(ast_lines)
+    impl_lines, meta, model_lines = [], {}, []
+    for k, (snames, xtis, nm, sheets, split) in enumerate(books):
+        lbls, exp_names, mod_names, kn_names = [], [], [], False
+        for x in nm:
+            parts = model.get(x["lid"], "").split("|")
+            rgce = bytes.fromhex(parts[0])[2:] if len(parts) == 5 else b""
+            lbls.append(fg.lbl_payload(x["flags"], x["itab"], x["name"], x["wide"], rgce))
+            text = bytes.fromhex(parts[2]).decode("utf-8") if len(parts) == 5 else ""
+            exp_names.append((x["name"], text))
+            if x["known"]:
+                kn_names = True
+                mod_names.append((x["name"], None))
+            else:
+                mod_names.append((x["name"], text))
+        fbs, exp_sheets, has_exp, cms = [], [], False, []
+        for slots in sheets:
+            fl, cp, cm = [], [], []
+            cms.append(cm)
+            first_exp = True
+            for slot in slots:
+                r, c = slot[0], slot[1]
+                if slot[2] == "ptgexp":
+                    cpf = struct.pack("<H", 5) + b"\x01" + struct.pack("<HH", r, c)
+                    tail = xf.rec(0x04BC, fg.shrfmla_record_payload(r, r, c, c, b"\x1e\x07\x00")) if first_exp else b""
+                    fl.append((r, c, cpf, tail))
+                    cp.append((r, c, "7"))
+                    cm.append((r, c, ""))
+                    has_exp = True
+                else:
+                    hexb, text = _pick_ast(model, slot[2], "03001e0700", "7")
+                    fl.append((r, c, bytes.fromhex(hexb)))
+                    cp.append((r, c, text))
+                    cm.append((r, c, text))
+            if fl and rng.random() < 0.6:
+                # NUMBER cells outside the formula area: the formula range must not follow the value range
+                r0, c0 = fl[0][0], min(x[1] for x in fl)
+                r1, c1 = fl[-1][0], max(x[1] for x in fl)
+                num = lambda r_, c_: xf.rec(0x0203, struct.pack("<HHHd", r_, c_, 0, 3.25))
+                if r0 > 0:
+                    fl.insert(0, (r0 - 1, max(0, c0 - 1), None, num(r0 - 1, max(0, c0 - 1))))
+                elif c0 > 0:
+                    fl.insert(0, (r0, 0, None, num(r0, 0)))
+                if r1 < 65535:
+                    fl.append((r1 + 1, min(255, c1 + 2), None, num(r1 + 1, min(255, c1 + 2))))
+                ctx.count("xls:file:values_outside_formula_area")
+            fbs.append(fl)
+            exp_sheets.append((fg.expected_range(cp, keep_empty=True), fg.expected_range(cm, keep_empty=True)))
+            ctx.count("xls:file:formulas_per_sheet:%d" % len(cm))
+        data = xf.cfb_write([("Workbook", xf.workbook_stream(snames, [], xtis, fbs, lbls=lbls, split_extern=split))])
+        path = _write("e%d.xls" % k, data)
+        calls = "names;" + ";".join("formula " + hx(s) for s in snames)
+        line = "xl%d\topen\txls\t%s\t%s" % (k, path, calls)
+        impl_lines.append(line)
+        # the globals records that build the environment, in file order (as workbook_stream writes them)
+        grecs = [(0x01AE, struct.pack("<HH", len(snames), 0x0401))]
+        if xtis and split and len(xtis) > 1:
+            grecs += [(0x0017, fg.externsheet_payload(xtis[:len(xtis) // 2])), (0x0017, fg.externsheet_payload(xtis[len(xtis) // 2:]))]
+        elif xtis:
+            grecs.append((0x0017, fg.externsheet_payload(xtis)))
+        grecs += [(0x0018, p_) for p_ in lbls] + [(0x000A, b"")]
+        model_lines.append("xl%d_e\tfenv\txls\t%s\t%s" % (k, names_arg(snames), _recs_arg(grecs)))
+        for si, cm in enumerate(cms):
+            model_lines.append(_fpos_line("xl%d_p%d" % (k, si), cm, keep=True))
+        meta["xl%d" % k] = (line, exp_names, [x["known"] for x in nm], exp_sheets, has_exp, xtis)
+    impl = ctx.run_impl(impl_lines)
+    mod2 = ctx.run_model(model_lines)
+    for lid, (line, en, kn, es, has_exp, xtis) in meta.items():
+        env = mod2.get(lid + "_e", "")
+        mnames, want, kn_hit = env or "(missing)", [], False
+        if env.startswith("ok:") and "|" in env:
+            mnames, mx = env[3:].split("|", 1)
+            if mx != ",".join("%d:%d:%d" % t for t in xtis):
+                ctx.disagreements.append({"function": "xls XTI table (FormulaEnv model vs the generator's list)", "case": line,
+                                          "impl": ",".join("%d:%d:%d" % t for t in xtis), "model": mx})
+            mparts = mnames.split(",") if mnames else []
+            for i, (n_, t_) in enumerate(en):
+                spec = "%s=%s" % (hx(n_), hx(t_))
+                if i >= len(mparts) or (mparts[i] != spec and not kn[i]):
+                    # outside K_XLS_NAME_FORMULA the model must give the A1 text (C14_xls_name_ref3d_absolute)
+                    ctx.disagreements.append({"function": "xls defined name outside the known class (FormulaEnv model vs render)",
+                                              "case": line, "impl": spec, "model": mparts[i] if i < len(mparts) else None})
+                elif mparts[i] != spec:
+                    kn_hit = True
+        want = ["%s=%s" % (hx(n_), hx(t_)) for (n_, t_) in en]
+        for si, e in enumerate(es):
+            m = mod2.get("%s_p%d" % (lid, si))
+            if m != e[1]:
+                ctx.disagreements.append({"function": "formula_range (FormulaEnv model vs expansion of the generator)", "case": line,
+                                          "impl": e[1], "model": m})
+        _check_book(ctx, "xls", line, impl.get(lid), ",".join(want), es, KNOWN_PTGEXP if has_exp else None, model_names=mnames,
+                    known_names=KNOWN_XLS_NAME if kn_hit else None)
+    ctx.extra["generated_xls_files"] = len(books)
+    return meta, impl
+
+
+# ---- stored-text formats
+XLSX_TEXTS = ["A1+B2", "SUM(A1:B2)", 'IF(A1<B1,"x&y","<>")', "A1&\"<tag attr='1'>\"", " A1 ", "1+1 ", "\nA1*2", "\tB2",
+              "'My Sheet'!A1", "[1]Sheet1!$A$1", "a<b", "a>b", "a&&b", "x]]>y", "Σ(α)+名前", '""', "-A1", "1", "TRUE",
+              "Rate*B1", "_xlnm.Print_Area", "A1:INDEX(A:A,3)", "\U0001F600&\"\"", "&amp;", "&#65;", "<![CDATA[x]]>", "  "]
+
+
+def _stored_text(rng, pool):
+    if rng.random() < 0.7:
+        return rng.choice(pool)
+    alph = "AB12+-*/(),:$ <>&\"'!.\n\tπ名"
+    return "".join(rng.choice(alph) for _ in range(rng.randrange(1, 14)))
+
+
+def _shared_tokens(rng):
+    toks = []
+    for _ in range(rng.randrange(1, 4)):
+        toks.append(("ref", rng.randrange(0, 60), rng.randrange(0, 900), rng.random() < 0.3, rng.random() < 0.3))
+        toks.append(("lit", rng.choice(["+", "*", "-1+", ",", "&\"A1\"&", "+SUM(", ")+"])))
+    toks.append(("ref", rng.randrange(0, 60), rng.randrange(0, 900), False, False))
+    return toks
+
+
+def _shared_text(toks, dr, dc):
+    out = []
+    for t in toks:
+        if t[0] == "lit":
+            out.append(t[1])
+        else:
+            _, c, r, cabs, rabs = t
+            out.append(("$" if cabs else "") + fg.col_letters(c if cabs else c + dc) + ("$" if rabs else "") + str((r if rabs else r + dr) + 1))
+    return "".join(out)
+
+
+def run_xlsx_files(ctx, n):
+    rng = ctx.rng
+    impl_lines, meta = [], {}
+    for k in range(n):
+        ns = rng.randrange(1, 4)
+        sheets = rng.sample(SHEET_POOL, ns)
+        sheet_cells, exp_sheets, sparse = [], [], []
+        for si in range(ns):
+            br, bc = _window(rng, 1048576, 16384)
+            cells = {}
+            for _ in range(rng.choice([0, 1, 2, 3, 5, 9])):
+                r, c = br + rng.randrange(0, 24), bc + rng.randrange(0, 8)
+                p = rng.random()
+                v = rng.choice([None, None, None, ("n", "1.5"), ("str", "a<b"), ("b", "1"), ("e", "#DIV/0!"), ("is", "in line"), ("s", 1), ("n", "")])
+                if p < 0.15:
+                    cells[(r, c)] = {"f": None, "v": v or ("n", "2")}
+                else:
+                    t = "" if p < 0.22 else _stored_text(rng, XLSX_TEXTS)
+                    fa = rng.choice(["", "", "", ' aca="1"', ' xml:space="preserve"', ' ca="1"', ' t="normal"', ' t="array" ref="%s"' % fg.a1(r, c),
+                                     ' t="shared" ref="%s" si="%d"' % (fg.a1(r, c), 40 + len(cells))])
+                    cells[(r, c)] = {"f": t, "fa": fa, "v": v, "exp": t}
+            if br < 1000 and bc < 1000 and rng.random() < 0.35:
+                # a shared group: the master carries the text, the members only t/si
+                toks = _shared_tokens(rng)
+                mr, mc = br + 30, bc + rng.randrange(0, 3)
+                h, w = rng.choice([(3, 1), (1, 4), (3, 2)])
+                si_ = rng.randrange(0, 5)
+                for dr in range(h):
+                    for dc in range(w):
+                        if dr == dc == 0:
+                            cells[(mr, mc)] = {"f": _shared_text(toks, 0, 0), "v": rng.choice([None, ("n", "3")]), "exp": _shared_text(toks, 0, 0),
+                                               "fa": ' t="shared" ref="%s:%s" si="%d"' % (fg.a1(mr, mc), fg.a1(mr + h - 1, mc + w - 1), si_)}
+                        elif rng.random() < 0.85:
+                            cells[(mr + dr, mc + dc)] = {"f": "", "fa": ' t="shared" si="%d"' % si_, "v": rng.choice([None, ("n", "3")]),
+                                                         "exp": _shared_text(toks, dr, dc)}
+                ctx.count("xlsx:file:shared_group")
+            if cells and rng.random() < 0.5:      # values outside the formula area
+                r0, c0 = min(cells)[0], min(p[1] for p in cells)
+                if r0 > 0 and c0 > 0:
+                    cells[(r0 - 1, c0 - 1)] = {"f": None, "v": ("n", "9")}
+                r1 = max(cells)[0]
+                if r1 < 1048575:
+                    cells[(r1 + 1, min(16383, max(p[1] for p in cells) + 1))] = {"f": None, "v": ("str", "end")}
+            sheet_cells.append(cells)
+            fc = [(r, c, d["exp"]) for (r, c), d in sorted(cells.items()) if d.get("f") is not None]
+            e = fg.expected_range(fc)
+            exp_sheets.append((e, e))
+            sparse.append(fc)
+            ctx.count("xlsx:file:formulas_per_sheet:%d" % len([x for x in fc if x[2]]))
+            ctx.count("xlsx:file:formula_without_value", len([1 for d in cells.values() if d.get("f") and d.get("v") is None]))
+        names = []
+        for i in range(rng.choice([0, 0, 1, 2, 4])):
+            attrs = rng.choice(["", "", ' hidden="1"', ' localSheetId="0"', ' function="1" vbProcedure="1"', ' comment="c &amp; d"', ' hidden="1" localSheetId="0"'])
+            t_ = _stored_text(rng, ["Sheet1!$A$1:$B$2", "1+2", "\"a<b\"&\"&\"", "#REF!", "'My Sheet'!$C$3", "OFFSET(Data!$A$1,0,0,COUNTA(Data!$A:$A),1)", ""])
+            if t_ and "]]>" not in t_ and rng.random() < 0.1:
+                names.append((attrs, rng.choice(NAME_POOL), t_, rng.randrange(0, len(t_))))      # CDATA in a definedName (K_XLSX_NAME_CDATA until 6524937)
+            else:
+                names.append((attrs, rng.choice(NAME_POOL), t_))
+        path = _write("e%d.xlsx" % k, fg.xlsx_bytes(sheets, sheet_cells, names, rng))
+        line = "xx%d\topen\txlsx\t%s\t%s" % (k, path, "names;" + ";".join("formula " + hx(s) for s in sheets))
+        impl_lines.append(line)
+        pred_names = fg.expected_names([(x[1], x[2]) for x in names])
+        meta["xx%d" % k] = (line, fg.expected_names([(x[1], x[2]) for x in names]), exp_sheets, sparse, pred_names)
+    impl = ctx.run_impl(impl_lines)
+    _model_ranges(ctx, meta, "xlsx")
+    for lid, (line, en, es, _, pn) in meta.items():
+        # former K_XLSX_NAME_CDATA (fixed by 6524937): a CDATA section inside <definedName> is part of the text
+        _check_book(ctx, "xlsx", line, impl.get(lid), en, es, model_names=pn, known_names=KNOWN_XLSX_CDATA if pn != en else None)
+    ctx.extra["generated_xlsx_files"] = n
+    return meta, impl
+
+
+ODS_TEXTS = ["of:=[.A1]+1", "=1+2", "of:=SUM([.A1:.B2])", "oooc:=[.A1]", "msoxl:=A1", 'of:=IF([.A1]<[.B1];"x&y";"<>")',
+             "of:=['My Sheet'.A1]", 'of:="a""b"', " of:=1 ", "of:", "=", "of:=[$Sheet2.$A$1]*Rate", "of:=Σ+名前", "of:=1>2", "of:=[.A1]&\"'\"",
+             "of:=\U0001F600", "of:=COM.MICROSOFT.CONCAT([.A1:.A3])", "1"]
+
+
+def run_ods_files(ctx, n):
+    rng = ctx.rng
+    impl_lines, meta = [], {}
+    for k in range(n):
+        ns = rng.randrange(1, 4)
+        sheets = rng.sample(SHEET_POOL, ns)
+        sheet_rows, exp_sheets, sparse = [], [], []
+        for si in range(ns):
+            rows = []
+            lead_r = rng.choice([0, 0, 1, 5, 1048576 - 40, rng.randrange(0, 100000)])
+            lead_c = rng.choice([0, 0, 1, 3, 16384 - 40, rng.randrange(0, 3000)])
+            if lead_r:
+                if rng.random() < 0.5 or lead_r < 3:
+                    rows.append((lead_r, [(rng.choice([1, 16384]), {})]))
+                else:
+                    a = rng.randrange(1, lead_r)
+                    rows += [(a, [(1, {})]), (lead_r - a, [(16384, {})])]
+            used_r = lead_r
+            for _ in range(rng.choice([0, 1, 2, 3, 5])):
+                if used_r >= 1048576 - 6:
+                    break
+                kind = rng.random()
+                if kind < 0.15:
+                    rep = rng.choice([1, 2, 7])
+                    rows.append((rep, [(rng.choice([1, 5, 16384]), {})]))       # empty rows inside the block
+                    used_r += rep
+                    continue
+                rcells = []
+                used_c = 0
+                if lead_c and rng.random() < 0.85:
+                    rcells.append((lead_c, {}))
+                    used_c = lead_c
+                for _ in range(rng.choice([1, 2, 3, 5])):
+                    if used_c >= 16384 - 6:
+                        break
+                    p = rng.random()
+                    rep = rng.choice([1, 1, 1, 2, 3])
+                    v = rng.choice([None, None, ("float", "2"), ("float", "-1.5"), ("string", "txt"), ("string", ""), ("boolean", "true"), ("strattr", "a&b")])
+                    if p < 0.2:
+                        cell = {}                                                  # blank
+                    elif p < 0.35:
+                        cell = {"v": v or ("float", "7")}                          # value only
+                    elif p < 0.42:
+                        cell = {"f": "", "v": v}                                   # empty formula attribute
+                    else:
+                        cell = {"f": _stored_text(rng, ODS_TEXTS), "v": v}
+                    if cell and rng.random() < 0.2:
+                        cell["style"] = True
+                    if not cell.get("v") and not cell.get("f") and rng.random() < 0.2:
+                        cell["covered"] = True
+                    rcells.append((rep, cell))
+                    used_c += rep
+                if rng.random() < 0.5 and used_c < 16384:
+                    rcells.append((16384 - used_c, {}))                            # the trailing filler LibreOffice writes
+                rrep = rng.choice([1, 1, 1, 2, 3])
+                rows.append((rrep, rcells))
+                used_r += rrep
+            if rng.random() < 0.5 and used_r < 1048576:
+                rows.append((1048576 - used_r, [(16384, {})]))
+            if not rows:
+                rows.append((1, [(1, {})]))
+            sheet_rows.append(rows)
+            fc = fg.ods_expand(rows)
+            e = fg.expected_range(fc)
+            exp_sheets.append((e, e))
+            sparse.append(fc)
+            ctx.count("ods:file:formulas_per_sheet:%d" % min(9, len([x for x in fc if x[2]])))
+            for (rrep, rcells) in rows:
+                for (crep, cell) in rcells:
+                    if cell.get("f"):
+                        ctx.count("ods:file:formula_%s_value%s" % ("with" if cell.get("v") else "without", "_repeated" if crep > 1 or rrep > 1 else ""))
+        names = []
+        for i in range(rng.choice([0, 0, 1, 2, 4])):
+            if rng.random() < 0.5:
+                names.append(("range", rng.choice(NAME_POOL), rng.choice(["$S.$A$1", "$S.$A$1:.$B$2", "$'My Sheet'.$C$3", ""])))
+            else:
+                names.append(("expr", rng.choice(NAME_POOL), _stored_text(rng, ODS_TEXTS)))
+        path = _write("e%d.ods" % k, fg.ods_bytes(sheets, sheet_rows, names, rng))
+        line = "xo%d\topen\tods\t%s\t%s" % (k, path, "names;" + ";".join("formula " + hx(s) for s in sheets))
+        impl_lines.append(line)
+        meta["xo%d" % k] = (line, fg.expected_names([(n_, t_) for _, n_, t_ in names]), exp_sheets, sparse)
+    impl = ctx.run_impl(impl_lines)
+    _model_ranges(ctx, meta, "ods")
+    for lid, (line, en, es, _) in meta.items():
+        _check_book(ctx, "ods", line, impl.get(lid), en, es)
+    ctx.extra["generated_ods_files"] = n
+    return meta, impl
+
+
+
 def load_ftab():
     src = os.path.join(os.environ.get("VERIF_REPO", "/repo"), "src", "utils.rs")
     _, _, argc = gen_tables.extract(src)
@@ -654,11 +1332,25 @@ def run(ctx):
         seeds[fmt] = [l.split("\t")[-1] for l in impl_lines[:400] if l.split("\t")[-1]]
     for fmt in ("xls", "xlsb"):
         run_raw(ctx, fmt, ctx.scale(6000, 120000), fmt[-1] + "r", seeds[fmt])
-    run_files(ctx, ctx.scale(150, 2000), argc)
+    run_files(ctx, ctx.scale(60, 800), argc)
+    run_e2e(ctx, argc)
+
+
+def run_e2e(ctx, argc, factor=1):
+    import shutil
+    for f in os.listdir(E2E_DIR) if os.path.isdir(E2E_DIR) else []:
+        if f.startswith("e"):
+            os.remove(os.path.join(E2E_DIR, f))
+    mb, ib = run_xlsb_files(ctx, factor * ctx.scale(150, 2000), argc)
+    ml, il = run_xls_files2(ctx, factor * ctx.scale(120, 1500), argc)
+    mx, ix = run_xlsx_files(ctx, factor * ctx.scale(150, 2000))
+    mo, io_ = run_ods_files(ctx, factor * ctx.scale(150, 2000))
+    return (mb, ib), (ml, il), (mx, ix), (mo, io_)
 
 
 def search(ctx):
     argc = load_ftab()
+    run_e2e(ctx, argc, factor=4)
     for fmt in ("xls", "xlsb"):
         _, impl_lines, _ = run_ast_batch(ctx, fmt, ctx.scale(50000, 300000), fmt[-1] + "s", argc)
         run_raw(ctx, fmt, ctx.scale(30000, 200000), fmt[-1] + "q", [l.split("\t")[-1] for l in impl_lines[:400]])
